@@ -1053,6 +1053,32 @@ pub fn gen_c15(seed: u64) -> Scenario {
             }
         }
     }
+    // one scenario in five also works on real files: an installer replaces them atomically while clients read them
+    // through the default reader (every file-system request of such a read is a scheduling point)
+    let mut total = total;
+    if r.chance(1, 5) {
+        let inst = match sc.actors.iter().position(|a| a.kind == "installer") {
+            Some(i) => i,
+            None => {
+                sc.actors.push(Actor { kind: "installer".into(), ops: vec![] });
+                sc.actors.len() - 1
+            }
+        };
+        let names = ["L0", "L1"];
+        sc.actors[inst].ops.insert(0, Op::LiveInstall { name: names[0].into(), cid: r.usize(ncont) });
+        for _ in 0..2 + r.usize(5) {
+            let at = 1 + r.usize(sc.actors[inst].ops.len());
+            sc.actors[inst].ops.insert(at, Op::LiveInstall { name: names[r.usize(2)].into(), cid: r.usize(ncont) });
+            total += 1;
+        }
+        for a in sc.actors.iter_mut().filter(|a| a.kind == "client") {
+            for _ in 0..1 + r.usize(3) {
+                let at = r.usize(a.ops.len() + 1);
+                a.ops.insert(at, Op::LiveRead { name: names[if r.chance(3, 4) { 0 } else { 1 }].into() });
+                total += 4;
+            }
+        }
+    }
     let switch = [50u64, 200, 500, 900][r.usize(4)];
     sc.sched = sched(&mut r, total * 6 + 8, switch);
     sc.knobs = format!("clients={nclients} fault_permille={fault_permille} switch_permille={switch}");
